@@ -8,6 +8,7 @@ pub mod c07;
 pub mod c11;
 pub mod c12;
 pub mod c13;
+pub mod c15;
 
 use symcore::Config;
 
@@ -23,6 +24,7 @@ pub fn instances(prop: &str, tier: &str, seed: u64) -> Vec<String> {
         "C11" => c11::instances(tier),
         "C12" => c12::instances(tier),
         "C13" => c13::instances(tier),
+        "C15" => c15::instances(tier),
         _ => vec![],
     }
 }
@@ -46,6 +48,7 @@ pub fn body(prop: &str, inst: &str) {
         "C11" => c11::body(inst),
         "C12" => c12::body(inst),
         "C13" => c13::body(inst),
+        "C15" => c15::body(inst),
         _ => panic!("unknown property {}", prop),
     }
 }
